@@ -21,7 +21,8 @@ RULE = (
     "result ids and ttl, store_result on/off; message broker in-memory or Redis with the results bucket broker in-memory or "
     "Redis (brokers 'mem' / 'redis'). Fault: the n-th store_bucket call on the results broker raises (swept over n in the "
     "thorough tier); on Redis additionally an -ERR reply to SET or a connection reset at a seeded step inside the call; slow "
-    "I/O: the n-th result store of the worker stalls for 20 ms - 2 s (retry back-off 50 ms or 0), no relaxation of the oracle. "
+    "I/O: the n-th result store of the worker stalls for 20 ms - 5 s (retry back-off 50 ms or 0, period 1 s; every 10th scenario "
+    "sweeps n over all stores), no relaxation of the oracle. "
     "Oracle: Job.result == outcome of the latest finished execution (success flag, encoded value or exception text and type "
     "name, started <= finished, ttl); nothing written when disabled; under a store fault every message's final place equals "
     "the fault-free twin's, no second terminal action follows the failed store, the worker finishes its other jobs. non-trivial = a "
@@ -321,6 +322,21 @@ def run(sc):
 
 
 def task(spec):
+    if spec["idx"] % 10 == 4:
+        # slow I/O sweep: each result store of the scenario in turn stalls for longer than the retry back-off / the period
+        import random
+
+        run_seed = kernel.derive_seed(spec["seed"], spec["pid"], spec["broker"], spec["idx"])
+        rng = random.Random(kernel.derive_seed(run_seed, "workload"))
+        sc = gen(rng, spec["broker"], spec["tier"])
+        sc.update({"seed": run_seed, "broker": spec["broker"], "property": spec["pid"]})
+        delay = rng.choice([200_000, 2_500_000, 5_000_000])
+        outs = []
+        for nth in range(1, 8):
+            s2 = copy.deepcopy(sc)
+            s2["fault"] = {"kind": "slow", "nth": nth, "offset": 0, "delay_us": delay}
+            outs.append(run(s2))
+        return cli.summarize(sc, outs, keep_sample=False)
     if spec["tier"] == "thorough" and spec["idx"] % 6 == 0:
         import random
 
